@@ -712,7 +712,7 @@ func c05MGen(r *vfRand, adv bool) c05MIn {
 			}
 			curGen = rq.Gen
 		}
-		ip := pool[r.Intn(len(pool))]
+		ip := c05MRespell(r, pool[r.Intn(len(pool))])
 		other := pool[r.Intn(len(pool))]
 		rq.Remote = "192.0.2.1:4000"
 		switch r.Intn(10) {
@@ -891,6 +891,41 @@ func c05MGenBig(r *vfRand) c05MIn {
 		}
 	}
 	return in
+}
+
+// c05MRespell (mux agent, seeded C05r): another SPELLING of the same client address, as it can
+// arrive in X-Forwarded-For / X-Real-Ip / RemoteAddr: IPv4-mapped IPv6 in dotted and in hex form,
+// upper-case hex, uncompressed IPv6.  net.ParseIP reads all of them as the same address.
+func c05MRespell(r *vfRand, ip string) string {
+	if !r.Chance(1, 5) {
+		return ip
+	}
+	p := net.ParseIP(ip)
+	if p == nil {
+		return ip
+	}
+	if p4 := p.To4(); p4 != nil {
+		switch r.Intn(4) {
+		case 0:
+			return "::ffff:" + p4.String()
+		case 1:
+			return fmt.Sprintf("::ffff:%x:%x", uint16(p4[0])<<8|uint16(p4[1]), uint16(p4[2])<<8|uint16(p4[3]))
+		case 2:
+			return fmt.Sprintf("::FFFF:%04X:%04X", uint16(p4[0])<<8|uint16(p4[1]), uint16(p4[2])<<8|uint16(p4[3]))
+		default:
+			return fmt.Sprintf("0:0:0:0:0:ffff:%x:%x", uint16(p4[0])<<8|uint16(p4[1]), uint16(p4[2])<<8|uint16(p4[3]))
+		}
+	}
+	p16 := p.To16()
+	var parts []string
+	for i := 0; i < 16; i += 2 {
+		parts = append(parts, fmt.Sprintf("%04x", uint16(p16[i])<<8|uint16(p16[i+1])))
+	}
+	full := strings.Join(parts, ":")
+	if r.Bool() {
+		return strings.ToUpper(full)
+	}
+	return full
 }
 
 func TestVerifC05Mux(t *testing.T) {
